@@ -61,10 +61,15 @@ SNIPPETS = [
     ("exec", "f = [lambda: 0, lambda: 0]; g = lambda: (lambda: (1)); h = lambda a: (lambda: (\n 1))\n"),
     ("exec", "def f(a, *args, key=None, **kw):\n    return a, args, key, kw\n"),
     ("exec", "x = '\\udc80'; y = '\\ud800\\udc00'; z = '\\ud800\\U0001fad0'\ndef f():\n    '\\udc80 doc'\n"),
+    # co_consts holds two equal tuples on <=3.9 (folded defaults) and both are referenced, one of them again later
+    ("exec", "x = (1, 2)\ndef f(a=1, b=2):\n    return a + b\ny = (1, 2)\nz = (1, 2)\n"),
     # one name that is a cell AND a free variable of the same code object (the class body of A)
     ("exec", "def outer():\n    __class__ = 'own'\n    class A:\n        y = __class__\n        def g(self):\n            return super().g()\n    return A\n"),
     ("exec", "def f(x):\n" + "".join("    x = x * 2\n" for _ in range(60)) + "    for i in x:\n        if i:\n            break\n    else:\n        return 0\n    return i\n"),
 ]
+
+
+SMALL_SCOPES = {"shadow": ('"EXT", "JABS", "FREE", "NOARG"', "{0, 1, 2}"), "dup": ('"EXT", "CONST", "NOARG"', "{0, 1, 2}")}
 
 
 def model_cfg(ver: str, tier: str, wd, emit=True, scope="module") -> str:
@@ -73,10 +78,9 @@ def model_cfg(ver: str, tier: str, wd, emit=True, scope="module") -> str:
     else:
         mu, mp, by = 4, 2, "{0, 1, 2, 4}"
     classes = '"EXT", "JABS", "JREL", "NAME", "LOCAL", "FREE", "CONST", "NOARG", "RAW"'
-    if scope == "shadow":
-        # only what the shared cell / free name can interact with
-        classes = '"EXT", "JABS", "FREE", "NOARG"'
-        by = "{0, 1, 2}"
+    if scope in SMALL_SCOPES:
+        # only what the shared cell / free name (the duplicated constant) can interact with, but 4 units in both tiers
+        classes, by, mu, mp = SMALL_SCOPES[scope] + (4, 1)
     fn = wd / f"MC_Decode_{ver}_{tier}_{scope}.cfg"
     fn.write_text(f"""SPECIFICATION Spec
 CONSTANTS
@@ -101,20 +105,20 @@ def run_models(rep: Report, tier: str, wd, versions=SUPPORTED):
         return v, scope, run_tlc("MC_Decode", model_cfg(v, tier, wd, scope=scope), workers=max(2, NCPU // len(versions)),
                                  timeout=3000, extra=["-continue"], heap="6g")
 
-    jobs = [(v, "module") for v in versions] + [(v, "shadow") for v in versions]
+    jobs = [(v, "module") for v in versions] + [(v, sc) for sc in SMALL_SCOPES for v in versions]
     with ThreadPoolExecutor(max_workers=len(versions)) as ex:
         for v, scope, r in ex.map(mc, jobs):
             r.errors = [e for e in r.errors if "behavior up to this point" not in e]
             rep.add_tlc(r, f"MC_Decode[{v},{tier},{scope}]")
             n = nbad = 0
-            tag = "" if scope == "module" else "s"
+            tag = "" if scope == "module" else scope[0]
             for s in tlc_prints(r.out):
                 ver, units, instrs, starts, bad = json.loads(tla_unescape(s))
                 n += 1
                 if bad:
                     nbad += 1
                 cases[v].append({"id": f"g:{v}:{tag}{n}", "units": [[u[0], u[2]] for u in units], "alt": n % 2 == 1,
-                                 "model_bad": bad, "shadow": scope == "shadow"})
+                                 "model_bad": bad, "scope": scope})
             rep.cov.setdefault("model_states_emitted", {})[v + tag] = n
             rep.cov.setdefault("model_states_violating_DecodeModel", {})[v + tag] = nbad
             if n == 0:
@@ -138,7 +142,7 @@ def collect_events(rep: Report, tier: str, wd, pool: Pool, gen_cases, extra_sour
             k += 1
             f = str(wd / f"gen-{v}-{k}.ndjson")
             files.append(f)
-            jobs[v].append(("decode.units_to_file", {"cases": [{kk: c.get(kk, False) for kk in ("id", "units", "alt", "shadow")} for c in ch], "path": f}))
+            jobs[v].append(("decode.units_to_file", {"cases": [{kk: c.get(kk, False) for kk in ("id", "units", "alt", "scope")} for c in ch], "path": f}))
         srcs = [{"id": f"ex:{n}", "src": s, "mode": "exec"} for n, s in REPO_EXAMPLES.items()]
         srcs += [{"id": f"sn:{i}", "src": s, "mode": m, "optimize": o} for i, (m, s) in enumerate(SNIPPETS) for o in (0, 2)]
         if extra_sources:
